@@ -29,6 +29,7 @@ func (g *gen) writeStatement(b *buffer, n *a.Node, depth uint32) error {
 		// Assertions only apply at compile-time.
 		return nil
 	}
+	g.verifSetLoc(n)
 
 	if (n.Kind() == a.KAssign) && (n.AsAssign().LHS() != nil) && n.AsAssign().RHS().Effect().Coroutine() {
 		// Put n's code into its own block, to restrict the scope of the
